@@ -231,6 +231,7 @@ def run(ctx):
     witness_obligations(ctx)
     bounded_histories(ctx)
     ctx.replayers['C06.append'] = replay_history
+    ctx.replayers['C06.copy'] = replay_history
     ctx.replayers['C06.'] = lambda r: dict(reproduced=None, detail='see counterexample')
 
 def _emsg(what, args):
